@@ -4,6 +4,7 @@ import (
 	"sort"
 	"sync"
 	"sync/atomic"
+	"time"
 
 	"verif/common"
 )
@@ -98,9 +99,10 @@ func (a *agg) flush(r *common.Run) {
 type sec struct {
 	name   string
 	ev, nt int64
+	t0     time.Time
 }
 
-func newSec(name string) *sec { return &sec{name: name} }
+func newSec(name string) *sec { return &sec{name: name, t0: time.Now()} }
 
 func (s *sec) add(ev, nt int64) {
 	atomic.AddInt64(&s.ev, ev)
@@ -110,5 +112,5 @@ func (s *sec) add(ev, nt int64) {
 func (s *sec) done(r *common.Run) {
 	r.Eval(s.ev)
 	r.Nontrivial(s.nt)
-	r.Section(map[string]any{"family": s.name, "evaluations": s.ev, "nontrivial": s.nt})
+	r.Section(map[string]any{"family": s.name, "evaluations": s.ev, "nontrivial": s.nt, "wall_s": float64(time.Since(s.t0).Milliseconds()) / 1000})
 }
